@@ -168,6 +168,7 @@ type Explorer struct {
 	Trace    string
 	InitFree map[int]Fact // closure roots: facts about the captured variables at the spawn site(s); key = free variable index
 	InitFreeIsCell map[int]bool // the free variable is the address of a captured variable (fact describes its content)
+	InitParam      map[int]Fact // named goroutine roots: facts about the parameters (receiver first) at the spawn site(s)
 	Mask     EffSet // effects tracked in must/may (others are reported as events but not remembered)
 	Opaque   EffSet // a callee whose closure is within this set is not inlined
 
@@ -686,7 +687,7 @@ func (x *Explorer) Run() {
 	// of the tracked loop, which may live in the root or in a function inlined into it
 	st.frames = []Frame{{fn: fn, blk: start}}
 	// root parameters: receiver / args of unknown provenance
-	for _, p := range fn.Params {
+	for pi, p := range fn.Params {
 		f := Fact{}
 		pt := p.Type()
 		if sl, ok := pt.Underlying().(*types.Slice); ok {
@@ -697,6 +698,10 @@ func (x *Explorer) Run() {
 		}
 		if named(pt) == x.P.A.Object && types.IsInterface(pt) {
 			f.Tags |= TParamObj
+		}
+		if pf, ok := x.InitParam[pi]; ok {
+			pf.Tags |= f.Tags
+			f = pf
 		}
 		st.define(p, f)
 	}
